@@ -293,9 +293,10 @@ func main() {
 			}
 		}
 		// malformed datagrams
+		var conflicting []int
 		for k := rng.Intn(3); k > 0; k-- {
 			var raw []byte
-			switch rng.Intn(4) {
+			switch rng.Intn(5) {
 			case 0:
 				raw = randBytes(rng.Intn(8)) // shorter than the header
 				h.Count("gen:short-datagram")
@@ -306,6 +307,14 @@ func main() {
 				f := fls[rng.Intn(len(fls))]
 				raw = []byte{byte(f.seq >> 24), byte(f.seq >> 16), byte(f.seq >> 8), byte(f.seq), 0, 0, 255, 255}
 				h.Count("gen:index-beyond-count-inflight")
+			case 3: // header for an in-flight seq that announces a larger count and an index beyond the real one
+				f := fls[rng.Intn(len(fls))]
+				real := len(f.dgs)
+				idx := real + rng.Intn(5)
+				max := idx + rng.Intn(4)
+				raw = []byte{byte(f.seq >> 24), byte(f.seq >> 16), byte(f.seq >> 8), byte(f.seq), byte(max >> 8), byte(max), byte(idx >> 8), byte(idx), 9, 9}
+				conflicting = append(conflicting, len(evs))
+				h.Count("gen:conflicting-count-inflight")
 			default:
 				raw = randBytes(8 + rng.Intn(6))
 				raw[0], raw[1] = 7, 7 // keep away from in-flight seqs
@@ -327,6 +336,18 @@ func main() {
 				h.Count("gen:expire-mid")
 			}
 			if e.raw != nil {
+				if len(e.raw) >= 8 && e.raw[0] != 7 {
+					// a well-formed-looking header for an in-flight seq that arrives before any genuine segment
+					// fixes a wrong slot count: outside the property's hypothesis for that message
+					sq := uint32(e.raw[0])<<24 | uint32(e.raw[1])<<16 | uint32(e.raw[2])<<8 | uint32(e.raw[3])
+					idx := int(e.raw[6])<<8 | int(e.raw[7])
+					max := int(e.raw[4])<<8 | int(e.raw[5])
+					for _, f := range fls {
+						if f.seq == sq && len(f.seen) == 0 && idx <= max {
+							f.dirty = true
+						}
+					}
+				}
 				o := do(fmt.Sprintf("recv %d %s", now, lp.Hex(e.raw)))
 				if len(e.raw) < 8 && o != "none" {
 					h.Violate("short datagram not discarded: " + o)
@@ -335,7 +356,7 @@ func main() {
 			}
 			o := do(fmt.Sprintf("recv %d %s", now, lp.Hex(e.f.dgs[e.idx])))
 			e.f.seen[e.idx] = true
-			if strings.HasPrefix(o, "msg") {
+			if strings.HasPrefix(o, "msg") && !e.f.dirty {
 				outputs[e.f]++
 				if o != "msg "+lp.Hex(e.f.msg) {
 					h.Violate("reassembled bytes differ from the message sent")
